@@ -162,6 +162,13 @@ class SolarCalcs(object):
                 (1 - self.parameter.vegAlbedo) * self.parameter.grassFLat *
                 self.UCM.SolRecRoad * grasscover)
 
+            # Outside the vegetation season the road is treated as bare ground (see
+            # alb_road above and Element.SurfFlux), so vegetation releases no heat.
+            if self.simTime.month < self.parameter.vegStart or \
+               self.simTime.month > self.parameter.vegEnd:
+                self.UCM.treeSensHeat = 0.
+                self.UCM.treeLatHeat = 0.
+
         else:  # No Sun
 
             self.UCM.road.solRec = 0.
